@@ -453,6 +453,8 @@ struct NormalWriter {
 impl fmt::Write for NormalWriter {
     /// Must never fail.
     fn write_str(&mut self, string: &str) -> fmt::Result {
+        #[cfg(lace_verif)]
+        crate::verif::tee_normal(string);
         if self.minimal {
             print!("{}", Decolored::new(string));
         } else {
@@ -475,6 +477,8 @@ struct DebuggerWriter {
 impl fmt::Write for DebuggerWriter {
     /// Must never fail.
     fn write_str(&mut self, string: &str) -> fmt::Result {
+        #[cfg(lace_verif)]
+        crate::verif::tee_debugger(string);
         let color = match self.category {
             Category::Normal => debugger_colors::PRIMARY,
             Category::Info => debugger_colors::PRIMARY,
